@@ -2117,17 +2117,33 @@ func getMethod(n *node) {
 	l := n.level
 	next := getExec(n.tnext)
 
-	// A value receiver is copied when the method value is evaluated, not when it is called.
+	// The receiver is evaluated when the method value is, not when it is called:
+	// a value receiver is copied, and a pointer receiver is the address of the
+	// operand at that time.
 	var recv func(*frame) reflect.Value
-	if rt := n.val.(*node).typ.recv; n.recv != nil && rt != nil && rt.TypeOf().Kind() != reflect.Ptr {
+	isPtr := false
+	if rt := n.val.(*node).typ.recv; n.recv != nil && rt != nil {
 		recv = genValueRecv(n)
+		isPtr = rt.TypeOf().Kind() == reflect.Ptr
 	}
 
 	n.exec = func(f *frame) bltn {
 		nod := *(n.val.(*node))
 		nod.val = &nod
 		nod.recv = n.recv
-		if recv != nil {
+		switch {
+		case recv == nil:
+		case isPtr:
+			r := recv(f)
+			if r.IsValid() && r.Kind() != reflect.Ptr && r.Kind() != reflect.Interface && r.CanAddr() {
+				r = r.Addr()
+			}
+			if r.IsValid() && r.Kind() == reflect.Ptr {
+				c := reflect.New(r.Type()).Elem()
+				c.Set(r)
+				nod.recv = &receiver{val: c}
+			}
+		default:
 			r := recv(f)
 			if r.Kind() == reflect.Ptr && !r.IsNil() {
 				r = r.Elem()
